@@ -7,7 +7,8 @@ From Coq Require Import List ZArith NArith String Bool.
 From SCC Require Import Base.Sexp Lang.FunSyn Lang.CoreSyn Lang.AxSyn Lang.AxSize Lang.FsSize Lang.CoreSize
      Model.Fun2Core Model.Focus Model.Shrink Model.SizeDefs Model.Linearize Model.Backend
      Model.Uniquify Proof.Fun2CoreProof Proof.SizeLin Proof.SizeCodegen Proof.SizeShrink Proof.SizeFocus Proof.SizeGen Proof.SizeUniquify Model.SizeFun Proof.SizeFun2CoreFv Proof.SizeFun2Core Proof.SizeFun2CoreProg
-     Model.ParMoves Model.LinCheck Model.X86 Model.SizeWf Proof.SizeParMoves Proof.SizeExchange Proof.SizeCodegenWf Proof.SizeX86 Proof.SizePipeline Proof.Fun2CoreExamples Proof.SizeFun2CoreRefute.
+     Model.ParMoves Model.LinCheck Model.X86 Model.SizeWf Proof.SizeParMoves Proof.SizeExchange Proof.SizeCodegenWf Proof.SizeX86 Proof.SizePipeline Proof.Fun2CoreExamples Proof.SizeFun2CoreRefute Proof.SizeA64 Proof.SizeRV.
+From SCC Require Model.A64 Model.RV.
 Import ListNotations.
 Open Scope N_scope.
 
@@ -301,6 +302,28 @@ Theorem C19_x86_compile_size : forall p lc r n lc',
   len r <= 30 + x86_K * cg_bound_defs (pdefs p).
 Proof. exact x86_compile_size. Qed.
 Print Assumptions C19_x86_compile_size.
+
+(* AArch64: K = 40 + 15 * FIELDS_PER_BLOCK (= 85); RISC-V: K = 20 + 13 * FIELDS_PER_BLOCK (= 59; the model emits
+   nothing for print and rv_compile rejects programs that print, as the real back end panics there) *)
+Theorem C19_a64_cost_model : cost_model_wf A64.a64_backend a64_K.
+Proof. apply a64_cost_model_wf. intros c. vm_compute. discriminate. Qed.
+Print Assumptions C19_a64_cost_model.
+
+Theorem C19_a64_compile_size : forall p lc r n lc',
+  sub_wf_prog p = true -> A64.a64_compile p lc = Backend.Ok (r, n, lc') ->
+  len r <= 28 + a64_K * cg_bound_defs (pdefs p).
+Proof. exact a64_compile_size. Qed.
+Print Assumptions C19_a64_compile_size.
+
+Theorem C19_rv_cost_model : cost_model_wf RV.rv_backend rv_K.
+Proof. exact rv_cost_model_wf. Qed.
+Print Assumptions C19_rv_cost_model.
+
+Theorem C19_rv_compile_size : forall p lc r n lc',
+  sub_wf_prog p = true -> RV.rv_compile p lc = Backend.Ok (r, n, lc') ->
+  len r <= rv_K * cg_bound_defs (pdefs p).
+Proof. exact rv_compile_size. Qed.
+Print Assumptions C19_rv_compile_size.
 
 (* ---------- round 2: the composition ---------- *)
 (* AxCut after linearization, from the source alone (no hypothesis but that the stages succeed):
